@@ -104,7 +104,7 @@ func (pass *DisjunctionToType) processDisjunction(visitor *Visitor, schema *ast.
 	// if we already generated a new object for this disjunction, let's return
 	// a reference to it.
 	if visitor.HasNewObject(ast.RefType{ReferredPkg: schema.Package, ReferredType: newTypeName}) {
-		ref := ast.NewRef(schema.Package, newTypeName, ast.Hints(def.Hints))
+		ref := ast.NewRef(schema.Package, newTypeName, ast.Hints(def.Hints), ast.Default(def.Default))
 		ref.AddToPassesTrail("DisjunctionToType[disjunction → ref]")
 		if def.Nullable || disjunction.Branches.HasNullType() {
 			ref.Nullable = true
@@ -157,7 +157,7 @@ func (pass *DisjunctionToType) processDisjunction(visitor *Visitor, schema *ast.
 
 	visitor.RegisterNewObject(newObject)
 
-	ref := ast.NewRef(schema.Package, newTypeName, ast.Hints(def.Hints))
+	ref := ast.NewRef(schema.Package, newTypeName, ast.Hints(def.Hints), ast.Default(def.Default))
 	ref.AddToPassesTrail("DisjunctionToType[disjunction → ref]")
 	if def.Nullable || disjunction.Branches.HasNullType() {
 		ref.Nullable = true
